@@ -495,7 +495,7 @@ int AsmContext::link_file(const char *filename)
   // FIXME: Checking the extension is redundant.
   n = strlen(filename);
 
-  while (n >= 0)
+  while (n > 0)
   {
     n--;
     if (filename[n] == '.') { break; }
